@@ -3,7 +3,24 @@ package kit
 // DDMin minimises a list of n elements: test(keep) reports whether the
 // candidate consisting of the elements with the given (sorted) original
 // indices still shows the failure. It returns a 1-minimal index list.
-func DDMin(n int, test func(keep []int) bool) []int {
+func DDMin(n int, test func(keep []int) bool) []int { return DDMinN(n, 3000, test) }
+
+// DDMinN is DDMin with a bound on the number of candidate tests (a
+// deterministic budget: candidates are expensive for some engines). When the
+// budget is spent the smallest failing candidate found so far is returned.
+func DDMinN(n, maxTests int, test0 func(keep []int) bool) []int {
+	tests := 0
+	test := func(keep []int) bool {
+		if tests >= maxTests {
+			return false
+		}
+		tests++
+		return test0(keep)
+	}
+	return ddmin(n, test)
+}
+
+func ddmin(n int, test func(keep []int) bool) []int {
 	cur := make([]int, n)
 	for i := range cur {
 		cur[i] = i
